@@ -97,6 +97,41 @@ CLAIMED = {
               "for defects injected at every kind of position. Lean theorems (Props/C17) state line = origin."),
         note="HEADER_MISSING_COLUMN_NAMES refers to the line after the header block",
         design="§6 C17"),
+    "C02": dict(
+        technique="Lean 4 proof (header print/parse identity C13, render fixpoint C04, line framing lemmas) + writer/reader differential runs + round-trip oracle on three channels",
+        text=("The round trip is the composition of proved pieces: header print -> parse is the identity (C13.print_parse_id), rendered records re-parse to the same values and render to themselves (C04.fixpoint), "
+              "fields joined by TAB split back (TextLemmas), lines joined by LF read back (textLines_join). The writer and reader models are tied to the code by comparing bytes after every call; the oracle writes, "
+              "re-reads and re-writes real files through plain paths, .gz paths and handles, with parsed and API-built values and derived headers."),
+        note="the end-to-end composition theorem is not assembled in Lean (pieces are); gzip / locale encoding are observed",
+        design="§6 C02"),
+    "C14": dict(
+        technique="Lean 4 proof (build loop = declarative resolve; order independence; rejection cases; override MRO) + decide over regenerated definitions + differential runs in many load orders",
+        text=("Theorems: build_schemes succeeds iff every definition is grounded and filters exist, the built layout is Spec.resolve (base layout minus filtered, then new columns, redefinitions in place), "
+              "permuting the definitions changes nothing, RequireNullValue redefinitions put the null-only validator in front of the inherited chain, duplicate annotations are rejected at the entry point; "
+              "all hypotheses are discharged for the shipped definitions by decide +kernel. Random forests with injected defects are loaded in all (small) or many orders on model and implementation."),
+        note="class-level identity under an explicit freshness hypothesis on synthesised names (checked for shipped data); un-linearisable redefinitions (Python TypeError) are outside the model",
+        design="§6 C14"),
+    "C18": dict(
+        category="fault_enumeration",
+        technique="exhaustive fault injection at every I/O call of the sorter (Lean effect model pending)",
+        text=("For each workload the fault-free run fixes the sequence of I/O calls (mkstemp, gzip.open, write, read, handle.close, os.close, os.remove); one run per call position injects OSError there; after close() the temp "
+              "directory, the mkstemp descriptors and gzip handles are inspected, and propagation of the failure to the caller is checked; plus early abandonment and a sorting writer. This is enumeration of fault positions on the "
+              "implementation, not a proof: a Lean effect model of the bookkeeping is planned (DESIGN.md §6 C18)."),
+        note="Linux close semantics assumed for failed close(); CPython refcounting for abandoned generators",
+        design="§6 C18"),
+    "C19": dict(
+        technique="Lean 4 proof (look-ahead invariants of reader / overlap / sorter state machines) + instrumented iterators and handles on the implementation",
+        text=("Theorems: the reader's pull counter is min(k+1,|lines|)+1+n after n records (C19.reader_lookahead), overlap iteration consumes exactly what it emits (C19Overlap.slot_split, run_pulled_le), the sorter stash stays below capacity "
+              "and everything else is in spill files (C07.stash_lt_cap, count, spilled_all_but_fewer_than_cap). The implementation is run over counting iterators, a recording handle and a private temp directory, checking the bound after every step."),
+        note="buffering below handle.write() is not observed",
+        design="§6 C19"),
+    "C20": dict(
+        category="translation_validation",
+        technique="registry state machine model run against fresh interpreters per history + monotonicity / first-class oracle (Lean theorems pending)",
+        text=("The registry model (built-in definitions regenerated from the source + accumulated extras, rebuilt by the proved scheme builder) is compared with the real process-global registry on histories of registrations, lookups, "
+              "header validation and reads, one fresh interpreter per history; the oracle checks that registered schemes resolve and validate as built-ins do, built-ins are unchanged and earlier registrations survive later ones."),
+        note="theorems about the registry state machine are not yet stated in Lean; C14's theorems cover the builder it calls",
+        design="§6 C20"),
 }
 
 PENDING_REASON = "check not built yet in this round (planned, see DESIGN.md §6); not claimed until its check exists and passes on the unchanged tree"
